@@ -37,7 +37,7 @@ fn now_unix() -> i64 {
 }
 
 /// capture what aws-sdk-s3 sends for `op` (simplest valid input, or a generated one), unsigned
-fn capture(c: &mut Case<'_>, op: &str) -> Option<Req> {
+pub fn capture(c: &mut Case<'_>, op: &str) -> Option<Req> {
     let st = stack(&StackCfg { path_style: true, host: HostCfg::None, auth: false, via_proxy: false, endpoint_idx: 0 });
     let minimal = c.t.bool();
     let mut empty = Tape::new(&[]);
